@@ -8,8 +8,9 @@ EXTENDS Annotate, Json, IOUtils
 
 Traces == JsonDeserialize(IOEnv.TRACE_FILE)
 NT == Len(Traces)
-VARIABLE tid
-tvars == <<vars, tid>>
+VARIABLES tid, bucket
+tvars == <<vars, tid, bucket>>
+NB == 64
 T(t) == Traces[t]
 
 RECURSIVE FlatS(_, _)
@@ -77,15 +78,20 @@ Merge(o, x) ==
        ELSE <<<<o[x][1], IF o[x][1] = "B" THEN o[x][2] ELSE 0, 0>>>> \o Merge(o, x + 1)
 ObsItems(t) == [x \in DOMAIN T(t).items |-> <<T(t).items[x].k, T(t).items[x].id, Len(T(t).items[x].t)>>]
 
-TInit == /\ tid \in 1..NT
-         /\ src = T(tid).src /\ hasSrc = T(tid).hasSrc /\ mode = T(tid).mode
-         /\ anns = [x \in DOMAIN T(tid).anns |-> <<T(tid).anns[x][1], T(tid).anns[x][2]>>]
-         /\ pc = "loop" /\ k = 1 /\ lastEnd = 0 /\ out = <<>> /\ err = "none"
-TNext == (LoopStep \/ Finish) /\ UNCHANGED tid
+TInit == /\ tid = 0 /\ bucket \in 0..(NB - 1)
+         /\ src = <<>> /\ hasSrc = FALSE /\ mode = "" /\ anns = <<>>
+         /\ pc = "pick" /\ k = 1 /\ lastEnd = 0 /\ out = <<>> /\ err = "none"
+Pick  == /\ tid = 0
+         /\ \E t \in {x \in 1..NT : x % NB = bucket} :
+              /\ tid' = t
+              /\ src' = T(t).src /\ hasSrc' = T(t).hasSrc /\ mode' = T(t).mode
+              /\ anns' = [x \in DOMAIN T(t).anns |-> <<T(t).anns[x][1], T(t).anns[x][2]>>]
+         /\ pc' = "loop" /\ UNCHANGED <<k, lastEnd, out, err, bucket>>
+TNext == Pick \/ ((LoopStep \/ Finish) /\ UNCHANGED <<tid, bucket>>)
 TSpec == TInit /\ [][TNext]_tvars
 
-Judge == (pc = "loop" /\ k = 1) => \A cl \in Clauses : Holds(cl, tid) \/ PrintT(<<"FAIL", tid, cl>>)
-Conform == (pc = "done" /\ T(tid).src # <<>> /\ T(tid).raised = "") =>
+Judge == (tid # 0 /\ pc = "loop" /\ k = 1) => \A cl \in Clauses : Holds(cl, tid) \/ PrintT(<<"FAIL", tid, cl>>)
+Conform == (tid # 0 /\ pc = "done" /\ T(tid).src # <<>> /\ T(tid).raised = "") =>
               (Merge(out, 1) = ObsItems(tid) \/ PrintT(<<"DRIFT", tid>>))
-Done == (pc = "done" \/ err # "none") => PrintT(<<"DONE", tid>>)
+Done == (tid # 0 /\ (pc = "done" \/ err # "none")) => PrintT(<<"DONE", tid>>)
 =============================================================================
